@@ -174,6 +174,11 @@ def c12(tier, seed):
     scns = C.pairings_2d()[:8] + C.cubes_3d()[:5] + C.unweighted(C.pairings_2d()[:2])
     scns = scns + C.fractional(C.pairings_2d()[:4], wden=4, weights=(1, 2, 5))
     scns.append(scenario("cat2_x_cat2", [cat("A", 3, miss=[2]), cat("B", 2)], max_resp=3))
+    # single-vector tables (rank < 2 whatever the data): one MR item, one valid category
+    from scenarios import mr
+    scns.append(scenario("mr1_x_cat", [mr("A", 1), cat("B", 3)], max_resp=3))
+    scns.append(scenario("cat_x_mr1", [cat("A", 3, miss=[1]), mr("B", 1)], max_resp=3))
+    scns.append(scenario("cat1_x_cat", [cat("A", 2, miss=[1]), cat("B", 3)], max_resp=3))
     scns = scns + [dict(s, name=s["name"] + ".ins") for s in _insertion_scns(tier, seed)
                    if len(s["dims"]) > 1]
     return dict(
